@@ -102,6 +102,15 @@ def _programs(seed: int, tier: str) -> dict[str, list[tuple]]:
             if any(x[0] == "text" and y[0] == "text" for x, y in zip(combo, combo[1:])):
                 continue
             c.append(tuple(combo))
+    # comment blocks that contain comment blocks (a commented-out region that itself holds a comment) whose inner end
+    # tag carries its own whitespace control: only the OUTER tags' markers trim the text around the comment
+    nested = [("comment", "block", " a {% comment %} b {% endcomment " + m + "%} c ") for m in ("", "-", "~", "+")]
+    nested += [("comment", "block", " a {%" + m + " comment %}{% comment %} b {% endcomment %}{%" + m + " endcomment " + m + "%} c ") for m in ("-", "~")]
+    nested += [("comment", "block", " a {% raw %}{% endcomment -%}{% endraw %} c "), ("comment", "block", "{%- comment -%}{%- endcomment -%}")]
+    edge_texts = [None, ("text", "x "), ("text", " \n"), ("text", "\ty\r\n")]
+    for x in nested:
+        for pre_, post_ in itertools.product(edge_texts, repeat=2):
+            c.append(tuple(st for st in (pre_, x, post_) if st is not None))
     # (D) nests whose inner block mixes blank and non-blank branches (blank-block suppression must look at all of them)
     dd = [(("text", "A\n"), st, ("text", "\nZ")) for st in grammar.mixed_blank_nests(seed, tier == "quick")]
     # (E) branches whose text is blank but which DO something (assign / capture / increment / cycle): suppressing the
